@@ -78,11 +78,16 @@ class At:
     statement kind and ordinal (`stmt='Pass', nth=0`).  At a call, `args` is the
     tuple of evaluated positional arguments."""
 
-    def __init__(self, expr, call=None, stmt=None, nth=0, carries=None, label=None):
+    def __init__(self, expr, call=None, stmt=None, nth=0, carries=None, label=None, test=None):
         self.expr = expr
         self.call = call
         self.stmt = stmt
         self.nth = nth
+        # for `If` / `Assert` / `While` statements: the source text of the test; when given, the
+        # statement is found by (kind, test text) and `nth` counts among THOSE statements only, so an
+        # unrelated statement inserted or removed elsewhere does not move the assertion (a statement
+        # that is not found makes the function undecided, never a verdict)
+        self.test = test
         self.carries = carries
         self.label = label or (call or stmt or '')[-30:]
 
